@@ -19,6 +19,7 @@ type Scenario struct {
 	Fates   []TaskFate `json:"fates,omitempty"` // per (pipeline, task): forced outcome
 	Store   *StoreScenario `json:"store_scenario,omitempty"` // engine B1 (C09) instead of engine A
 	Reload  *ReloadScenario `json:"reload_scenario,omitempty"` // reload-loop engine (C17) instead of engine A
+	Late    *LateScenario `json:"late_writer_scenario,omitempty"` // C19 r6, real clock: a background command writes after its task has ended
 	Proc    *ProcScenario `json:"proc_scenario,omitempty"` // engine C, real clock (C20) instead of engine A
 	ProcEnv map[string]string    `json:"process_env,omitempty"` // engine C (C18): environment of the prunner process
 	Outputs map[string][]OutSpec `json:"outputs,omitempty"`     // engine C (C19): pipeline/task -> what each command writes
@@ -398,6 +399,11 @@ func Generate(seed uint64, profile string, faults bool) *Scenario {
 	if profile == "C18" || profile == "C19" {
 		g := gen{rand.New(rand.NewPCG(seed, 0x5245414c))}
 		sc := &Scenario{Profile: profile}
+		if profile == "C19" && g.p(30) {
+			sc.Late = genLate(g)
+			sc.Cfg = RunConfig{MaxSteps: 10}
+			return sc
+		}
 		if profile == "C18" {
 			generateEnvScenario(g, sc)
 		} else {
